@@ -1053,3 +1053,40 @@ def mon_l5run(spec, run):
 
 
 MONITORS["L5run"] = mon_l5run
+
+
+def mon_c16_two(spec, run):
+    """close() of a second connection from inside a callback of the first one: it returns without raising, and once it has returned nothing
+    more is written to that connection's port, the port is closed and its threads (R2, S2) terminate"""
+    bad = []
+    tr = run.trace
+    cs = [c for c in calls(tr) if c["op"][0] == "close2" and not str(c["ctx"]).endswith("-final")]
+    if not cs:
+        return bad
+    for c in cs:
+        if c["ret"] is None:
+            return [("hang", "close() of the second connection never returned")]
+        if c["exc"] is not None:
+            return [("raised", f"close() of the second connection raised {c['exc']}: {c.get('msg')}")]
+        if c["t_ret"] - c["t_call"] > 2 * JOIN_US + 100_000:
+            bad.append(("slow", f"close() of the second connection took {(c['t_ret'] - c['t_call']) / 1e6:.2f}s"))
+    r0 = min(cs, key=lambda c: c["ret"])
+    for e in tr:
+        if e["seq"] > r0["ret"] and e["k"] == "write" and e.get("port") == 2:
+            bad.append(("write-after", f"{bytes.fromhex(e['data'])[:60]!r} was written to the second connection's port after its close() had returned"))
+            break
+        if e["seq"] > r0["ret"] and e["k"] in ("msg_cb2", "disc_cb2"):
+            bad.append(("callback-after", "a callback of the second connection was started after its close() had returned"))
+            break
+    if not any(e["k"] == "port_close" and e.get("port") == 2 and e["seq"] < r0["ret"] for e in tr):
+        bad.append(("port-open", "the second connection's port is still open after its close() returned"))
+    for role in ("R2", "S2"):
+        ex = [e for e in tr if e["k"] == "thread_exit" and e["th"] == role]
+        if any(e["th"] == role for e in tr) and not ex:
+            bad.append(("thread-alive", f"thread {role} of the second connection never terminated after its close()"))
+        elif ex and ex[0]["t"] > r0["t_ret"] + 2 * JOIN_US + 100_000:
+            bad.append(("thread-late", f"thread {role} of the second connection terminated {(ex[0]['t'] - r0['t_ret']) / 1e6:.2f}s after its close() returned"))
+    return bad
+
+
+MONITORS["C16two"] = mon_c16_two
